@@ -49,6 +49,8 @@ predicate('Dir', ['tb'], ' and '.join([
     'forall_in(0, len(tb._index) - 1, lambda c: (at(tb._index, c + 1)[0] == at(tb._index, c)[0] and at(tb._index, c + 1)[1] == at(tb._index, c)[1] + 1) or (at(tb._index, c + 1)[0] == at(tb._index, c)[0] + 1 and at(tb._index, c + 1)[1] == 0 and at(tb._index, c)[1] == W(at(tb._blocks, at(tb._index, c)[0])) - 1))',
     'implies(len(tb._index) > 0, at(tb._index, 0)[0] == 0 and at(tb._index, 0)[1] == 0 and at(tb._index, len(tb._index) - 1)[0] == len(tb._blocks) - 1 and at(tb._index, len(tb._index) - 1)[1] == W(at(tb._blocks, len(tb._blocks) - 1)) - 1)',
     'implies(len(tb._index) == 0, len(tb._blocks) == 0)',
+    # global form of the successor property (kept as its own conjunct: SMT solvers do not derive it by induction): columns are strictly ascending in (block, column-in-block) order
+    'forall(lambda a, b: implies(0 <= a and a < b and b < len(tb._index), at(tb._index, a)[0] < at(tb._index, b)[0] or (at(tb._index, a)[0] == at(tb._index, b)[0] and at(tb._index, a)[1] < at(tb._index, b)[1])))',
     # ghost prefix offsets agree with the directory
     'len(tb._offs) == len(tb._blocks) + 1 and at(tb._offs, 0) == 0 and at(tb._offs, len(tb._blocks)) == tb._shape[1]',
     'forall_in(0, len(tb._blocks), lambda k: at(tb._offs, k + 1) == at(tb._offs, k) + W(at(tb._blocks, k)) and 0 <= at(tb._offs, k) and at(tb._offs, k + 1) <= tb._shape[1])',
@@ -96,6 +98,7 @@ predicate('DirParts', ['blocks', 'index', 'dtypes', 'rows', 'ncols', 'offs'], ' 
     'forall_in(0, len(index) - 1, lambda c: (at(index, c + 1)[0] == at(index, c)[0] and at(index, c + 1)[1] == at(index, c)[1] + 1) or (at(index, c + 1)[0] == at(index, c)[0] + 1 and at(index, c + 1)[1] == 0 and at(index, c)[1] == W(at(blocks, at(index, c)[0])) - 1))',
     'implies(len(index) > 0, at(index, 0)[0] == 0 and at(index, 0)[1] == 0 and at(index, len(index) - 1)[0] == len(blocks) - 1 and at(index, len(index) - 1)[1] == W(at(blocks, len(blocks) - 1)) - 1)',
     'implies(len(index) == 0, len(blocks) == 0)',
+    'forall(lambda a, b: implies(0 <= a and a < b and b < len(index), at(index, a)[0] < at(index, b)[0] or (at(index, a)[0] == at(index, b)[0] and at(index, a)[1] < at(index, b)[1])))',
     'len(offs) == len(blocks) + 1 and at(offs, 0) == 0 and at(offs, len(blocks)) == ncols',
     'forall_in(0, len(blocks), lambda k: at(offs, k + 1) == at(offs, k) + W(at(blocks, k)) and 0 <= at(offs, k) and at(offs, k + 1) <= ncols)',
 ]))
